@@ -83,10 +83,26 @@ func Transcript(sch omniparser.Schema, input io.Reader, o Opts) ([]Step, error) 
 		max = 2*o.InputLen + 64
 	}
 	var steps []Step
+	// the byte slices Read handed out, kept as they are (not copied): what a caller got for record k must still be there
+	// after later Reads (a caller may batch results). Checked when the run ends; a clobbered result is marked in its
+	// step's JSON, so that every comparison by key sees it.
+	type heldOut struct {
+		step int
+		b    []byte
+	}
+	var held []heldOut
+	defer func() {
+		for _, h := range held {
+			if h.step < len(steps) && string(h.b) != steps[h.step].Bytes {
+				steps[h.step].JSON = fmt.Sprintf("CLOBBERED-BY-A-LATER-READ: Read returned %q, the same slice now holds %q", steps[h.step].Bytes, h.b)
+			}
+		}
+	}()
 	for i := 0; i < max; i++ {
 		b, err := tr.Read()
 		st := ClassifyStep(b, err)
 		if err == nil {
+			held = append(held, heldOut{step: len(steps), b: b})
 			rr, rerr := tr.RawRecord()
 			if rerr != nil {
 				return steps, fmt.Errorf("RawRecord after a successful Read failed: %v", rerr)
